@@ -8,6 +8,7 @@ import (
 	"fmt"
 	"os"
 	"regexp/syntax"
+	"time"
 
 	"github.com/hattya/go.sh/ast"
 	"github.com/hattya/go.sh/interp"
@@ -40,14 +41,35 @@ type robustObs struct {
 
 func (o *robustObs) guard(what string, f func() error) {
 	o.Calls++
-	defer func() {
-		if e := recover(); e != nil {
-			if len(o.Panics) < 5 {
-				o.Panics = append(o.Panics, what+": "+panicString(e))
+	type res struct {
+		err error
+		pan string
+	}
+	ch := make(chan res, 1)
+	go func() {
+		var r res
+		defer func() {
+			if e := recover(); e != nil {
+				r.pan = panicString(e)
 			}
-		}
+			ch <- r
+		}()
+		r.err = f()
 	}()
-	if err := f(); err != nil {
+	var r res
+	select {
+	case r = <-ch:
+	case <-time.After(3 * time.Second):
+		// a call that does not return is reported like a panic
+		r.pan = "HANG: no return within 3s"
+	}
+	if r.pan != "" {
+		if len(o.Panics) < 5 {
+			o.Panics = append(o.Panics, what+": "+r.pan)
+		}
+		return
+	}
+	if err := r.err; err != nil {
 		c := errClass(err)
 		for _, x := range o.Errs {
 			if x == c {
